@@ -80,7 +80,7 @@ theorem handle_exactQ (s : St) (e : Nat × Nat) (es : List (Nat × Nat)) (h : Le
   · subst h2
     right; left
     show nextSlashHeight s1.p.lsBlocks s1.p.lsInterval s1.h r.cdStart = _
-    rw [hsame.2.2.2, hsame.2.2.1]
+    rw [hsame.peq, hsame.2.2.1]
   · have hx' : x ∈ s.ras := by rw [← hsame.1]; exact h2
     have hid : x.id ≠ e.2 := by
       intro hc; apply h3; show x.id = r.id; rw [getRa_id hg]; exact hc
